@@ -138,7 +138,23 @@ def read_lmod() -> dict:
     nat_cmd = [ast.unparse(st.value) for st in nat.body if isinstance(st, ast.Assign) and ast.unparse(st.targets[0]) == "cmd_args"]
     if len(nat_cmd) != 1:
         raise ExtractError("Native.execute: `cmd_args = …` not found")
-    return {"regex": pattern, "env_init": init, "execute_call": exe_call, "cmd_args": cmd_args[0], "native_cmd_args": nat_cmd[0]}
+    # object state: the attrs fields of Lmod, whether execute writes to `self`, and where the load command is issued
+    cls = _cls(tree, "Lmod")
+    fields = [st.target.id for st in cls.body if isinstance(st, ast.AnnAssign) and isinstance(st.target, ast.Name)]
+    self_writes = sorted(
+        {
+            ast.unparse(t)
+            for n in ast.walk(ex)
+            if isinstance(n, (ast.Assign, ast.AugAssign, ast.AnnAssign))
+            for t in (n.targets if isinstance(n, ast.Assign) else [n.target])
+            if ast.unparse(t).startswith("self.")
+        }
+    )
+    body = [st for k, st in enumerate(ex.body) if not (k == 0 and isinstance(st, ast.Expr) and isinstance(st.value, ast.Constant))]
+    first = ast.unparse(body[0]) if body else ""
+    n_load = sum(1 for n in ast.walk(ex) if isinstance(n, ast.Call) and ast.unparse(n.func) == "self.run_lmod_cmd")
+    return {"regex": pattern, "env_init": init, "execute_call": exe_call, "cmd_args": cmd_args[0], "native_cmd_args": nat_cmd[0],
+            "fields": fields, "self_writes": self_writes, "first_stmt": first, "n_load": n_load}
 
 
 def read_container() -> dict:
@@ -414,6 +430,11 @@ def extract_env_regexes(ctx=None):
     L.append(f"def lmodExecuteCall : String := {lean_str(lm['execute_call'])}")
     L.append(f"def lmodCmdArgs : String := {lean_str(lm['cmd_args'])}")
     L.append(f"def nativeCmdArgs : String := {lean_str(lm['native_cmd_args'])}")
+    L.append("/-- state an Lmod object can carry between jobs: its attrs fields, what `execute` assigns on `self`, the first statement of `execute`, number of `run_lmod_cmd` calls in it -/")
+    L.append(f"def lmodFields : List String := {lean_strs(lm['fields'])}")
+    L.append(f"def lmodExecuteSelfWrites : List String := {lean_strs(lm['self_writes'])}")
+    L.append(f"def lmodExecuteFirstStmt : String := {lean_str(lm['first_stmt'])}")
+    L.append(f"def lmodExecuteLoadCalls : Nat := {lm['n_load']}")
     L.append("")
     L.append("/-! pydra/environments/base.py (Container.get_bindings), docker.py, singularity.py -/")
     L.append(f"def mapPathStmts : List String := {lean_strs(ct['map_path'])}")
